@@ -203,27 +203,45 @@ class C17(Check):
 
     def install(self, ctx):
         E.install_standard(ctx)
-        from checks import C05
+        from checks import C05, C06
+        if getattr(ctx, "_c17_installing", False):
+            return                      # C06 composes this check's Dumps contract and calls back into this install
+        ctx._c17_installing = True
+        from checks import stdio as ST
+        ST.install(ctx)
+        ctx.dynamic_call_hook = C06.dynamic_call
         C05.CHECK.install(ctx)
         ctx.extern_handlers.update({"orjson.dumps": x_orjson_dumps, "orjson.loads": x_orjson_loads,
                                     "json.dumps": x_std_dumps, "json.loads": x_std_loads})
         ctx.extern_values = {"orjson.OPT_INDENT_2": V.VInt(OPT_INDENT_2)}
+        ctx._c17_installing = False
 
     def modular(self):
         from checks import C05
         # nested calls of loads inside the reader use its contract; loads itself is verified top-level below
-        return dict(C05.CHECK.modular())
+        from checks import C06
+        m = dict(C06.CHECK.modular())
+        m.update(C05.CHECK.modular())
+        return m
 
     def loop_invariants(self):
-        from checks import C05
-        return C05.CHECK.loop_invariants()
+        from checks import C05, C06
+        inv = dict(C06.CHECK.loop_invariants())
+        inv.update(C05.CHECK.loop_invariants())
+        return inv
 
     def contracts(self):
         from checks import C05
         # "every encoded message is exactly one NDJSON frame" is only useful if the reader frames on '\n' alone (the
         # fast backend writes U+0085/U+2028/U+2029 raw): the stdio reader's framing contract (C05) is re-verified here
         return [Dumps(True), Dumps(False), Dumps(True, True), Dumps(False, True), Loads(True, "str"), Loads(True, "bytes"), Loads(False, "str"),
-                Loads(False, "bytes"), C05.StdoutReader()]
+                Loads(False, "bytes"), C05.StdoutReader(), self.writer_contract()]
+
+    def writer_contract(self):
+        # ... and only if the writer sends the encoded text as it is: one line, nothing removed from inside string values
+        # (the stdio writer's per-write contract, C06)
+        from checks import C06
+        return C06.StdinWriter()
 
     def lemmas(self):
         return [Lemma("C17.lemma.all_four_backend_pairs_round_trip", lemma_round_trip)]
